@@ -172,7 +172,8 @@ class C18(object):
             ops.append(op)
         ops.append({"op": "load", "slot": 0, "seed": 0})
         ops.append({"op": "load", "slot": 1, "seed": 0})
-        return {"entry": "files/" + fam, "family": fam, "ops": ops, "faults": faults}
+        return {"entry": "files/" + fam, "family": fam, "ops": ops, "faults": faults,
+                "foreign_read": (rnd.getrandbits(31) + 1) if (fam in ("cf_text", "cf_hdf") and rnd.random() < 0.15) else 0}
 
     def describe(self, desc):
         return {"family": desc["family"], "faults": desc["faults"], "ops": desc["ops"][:10]}
@@ -194,6 +195,11 @@ class C18(object):
             cols = [[t, [draw_value(rnd, t) for _ in range(nrows)]] for t in titles]
             pars = self.make_payload("pars", seed + 1)["pars"] if rnd.random() < 0.7 else {}
             pars.pop("filename", None)      # the reader of a columnfile sets this header entry itself, by design
+            if fam == "cf_text" and rnd.random() < 0.3:
+                # header entries written by other programs: names with a dash are kept as they are by the columnfile reader
+                pars["sample-id"] = rnd.choice(["a-1", "S2", "x"])
+                if rnd.random() < 0.5:
+                    pars["fit-tolerance"] = rnd.choice([0.05, 0.1])
             return {"cols": cols, "pars": pars}
         if fam == "pars":
             names = rnd.sample(["distance", "wavelength", "o11", "cell_lattice_[P,A,B,C,I,F,R]", "fit_tolerance", "t_x", "name_1",
@@ -344,6 +350,33 @@ class C18(object):
         viol = None
         counts = collections.Counter()
         hist = []
+        if desc.get("foreign_read") and fam in ("cf_text", "cf_hdf"):
+            # before the history: the process reads a peaks file written by another program, whose integer-typed datasets carry
+            # titles this library knows nothing about; it must read back as it is (and leave later saves alone)
+            fp_ = os.path.join(d, "foreign.h5")
+            gq_ = np.random.default_rng(desc["foreign_read"])
+            with self.h5py.File(fp_, "w") as h_:
+                g_ = h_.create_group("peaks")
+                nfr_ = 7
+                fvals_ = {}
+                for t_ in UNKNOWN:
+                    fvals_[t_] = gq_.integers(0, 200, nfr_).astype(gq_.choice(["uint8", "int32", "int64"]))
+                    g_.create_dataset(t_, data=fvals_[t_])
+                g_.create_dataset("omega", data=gq_.random(nfr_))
+            try:
+                with contextlib.redirect_stdout(io.StringIO()):
+                    cfq_ = M["columnfile"].colfile_from_hdf(fp_, name="peaks")
+                for t_ in UNKNOWN:
+                    if not np.array_equal(np.asarray(cfq_.getcolumn(t_), float), fvals_[t_].astype(float)):
+                        viol = {"class": "readback-differs", "key": "files:%s:foreign-readback-differs" % fam,
+                                "detail": "a peaks group written with h5py (integer dataset %s) does not read back with its values" % t_}
+                counts["foreign_files_read_first"] += 1
+            except Exception as e:
+                if runner.is_harness_exception(e):
+                    raise
+                viol = {"class": "load-raises", "key": "files:%s:foreign-load-raises" % fam,
+                        "detail": "reading a peaks group written with h5py raised %s: %s" % (type(e).__name__, e)}
+            os.remove(fp_)
 
         def V(cls, detail):
             return {"class": cls, "key": "files:%s:%s" % (fam, cls), "detail": detail}
